@@ -241,34 +241,28 @@ impl<T: AsRef<[u8]>> Packet<T> {
                 AddressMode::Unspecified,
             ))),
             (1, 0b01) => {
-                if let Some(id) = self.src_context_id() {
-                    Ok(UnresolvedAddress::WithContext((
-                        id as usize,
-                        AddressMode::InLine64bits(&data[start..][..8]),
-                    )))
-                } else {
-                    Err(Error)
-                }
+                // RFC 6282 §3.1.1: without a CID extension, context 0 is used.
+                let id = self.src_context_id().unwrap_or(0);
+                Ok(UnresolvedAddress::WithContext((
+                    id as usize,
+                    AddressMode::InLine64bits(&data[start..][..8]),
+                )))
             }
             (1, 0b10) => {
-                if let Some(id) = self.src_context_id() {
-                    Ok(UnresolvedAddress::WithContext((
-                        id as usize,
-                        AddressMode::InLine16bits(&data[start..][..2]),
-                    )))
-                } else {
-                    Err(Error)
-                }
+                // RFC 6282 §3.1.1: without a CID extension, context 0 is used.
+                let id = self.src_context_id().unwrap_or(0);
+                Ok(UnresolvedAddress::WithContext((
+                    id as usize,
+                    AddressMode::InLine16bits(&data[start..][..2]),
+                )))
             }
             (1, 0b11) => {
-                if let Some(id) = self.src_context_id() {
-                    Ok(UnresolvedAddress::WithContext((
-                        id as usize,
-                        AddressMode::FullyElided,
-                    )))
-                } else {
-                    Err(Error)
-                }
+                // RFC 6282 §3.1.1: without a CID extension, context 0 is used.
+                let id = self.src_context_id().unwrap_or(0);
+                Ok(UnresolvedAddress::WithContext((
+                    id as usize,
+                    AddressMode::FullyElided,
+                )))
             }
             _ => Err(Error),
         }
@@ -296,34 +290,28 @@ impl<T: AsRef<[u8]>> Packet<T> {
             (0, 0, 0b11) => Ok(UnresolvedAddress::WithoutContext(AddressMode::FullyElided)),
             (0, 1, 0b00) => Ok(UnresolvedAddress::Reserved),
             (0, 1, 0b01) => {
-                if let Some(id) = self.dst_context_id() {
-                    Ok(UnresolvedAddress::WithContext((
-                        id as usize,
-                        AddressMode::InLine64bits(&data[start..][..8]),
-                    )))
-                } else {
-                    Err(Error)
-                }
+                // RFC 6282 §3.1.1: without a CID extension, context 0 is used.
+                let id = self.dst_context_id().unwrap_or(0);
+                Ok(UnresolvedAddress::WithContext((
+                    id as usize,
+                    AddressMode::InLine64bits(&data[start..][..8]),
+                )))
             }
             (0, 1, 0b10) => {
-                if let Some(id) = self.dst_context_id() {
-                    Ok(UnresolvedAddress::WithContext((
-                        id as usize,
-                        AddressMode::InLine16bits(&data[start..][..2]),
-                    )))
-                } else {
-                    Err(Error)
-                }
+                // RFC 6282 §3.1.1: without a CID extension, context 0 is used.
+                let id = self.dst_context_id().unwrap_or(0);
+                Ok(UnresolvedAddress::WithContext((
+                    id as usize,
+                    AddressMode::InLine16bits(&data[start..][..2]),
+                )))
             }
             (0, 1, 0b11) => {
-                if let Some(id) = self.dst_context_id() {
-                    Ok(UnresolvedAddress::WithContext((
-                        id as usize,
-                        AddressMode::FullyElided,
-                    )))
-                } else {
-                    Err(Error)
-                }
+                // RFC 6282 §3.1.1: without a CID extension, context 0 is used.
+                let id = self.dst_context_id().unwrap_or(0);
+                Ok(UnresolvedAddress::WithContext((
+                    id as usize,
+                    AddressMode::FullyElided,
+                )))
             }
             (1, 0, 0b00) => Ok(UnresolvedAddress::WithoutContext(AddressMode::FullInline(
                 &data[start..][..16],
